@@ -27,7 +27,7 @@ func Run(id string, start time.Time) int {
 	scratch := h.Scratch(id)
 	defer os.RemoveAll(scratch)
 
-	ntrees := h.Pick(28, 56)
+	ntrees := h.Pick(28, 42)
 	loads := h.Pick(200, 2000)  // free-running loads per tree in one process at GOMAXPROCS=4
 	loadsAlt := h.Pick(50, 200) // ... and in one process each at GOMAXPROCS=1 and 16
 	repeats := h.Pick(3, 6)     // loads per enforced completion order (GOMAXPROCS=4 process)
